@@ -111,7 +111,7 @@ def casts(F, res, reach):
                 if lo <= c["int"] <= hi:
                     by = "literal %d fits" % c["int"]
             if by is None and rv["from"] == "usize":
-                orig = mir.provenance(f, du, rv["op"], transparent_extra=("std::option::Option::<T>::unwrap",))
+                orig = mir.provenance(f, du, rv["op"], transparent_extra=_INDEX_PASS)
                 if orig and all(o.kind == "call" and (o.callee.endswith("::position") or o.callee.endswith("Iterator::position") or "enumerate" in o.callee
                                                        or o.callee.endswith("::len")) or (o.kind == "arg" and f["def_kind"] == "Closure") for o in orig):
                     if any(o.kind == "call" for o in orig) or _closure_arg_is_index(F, f, du, rv["op"]):
@@ -121,14 +121,14 @@ def casts(F, res, reach):
                 from . import c12
                 fi = c12._inlined_for_discharge(F, f)
                 if fi is not None and fi.get("inlined"):
-                    orig = mir.provenance(fi, mir.DefUse(fi), rv["op"], transparent_extra=("std::option::Option::<T>::unwrap",))
+                    orig = mir.provenance(fi, mir.DefUse(fi), rv["op"], transparent_extra=_INDEX_PASS)
                     if orig and all(o.kind == "call" and (o.callee.endswith("::position") or o.callee.endswith("Iterator::position") or "enumerate" in o.callee
                                                           or o.callee.endswith("::len")) for o in orig):
                         by = "D-INDEX: position / length of an in-memory collection, computed in an inlined helper"
             if by is None and rv["from"] == "usize" and f["def_kind"] != "Closure":
                 # the index is a parameter of a small helper (`fn found_index_or(found: Option<usize>, ..) -> Result<u32, _>`): judged
                 # in every caller, with the crate's helpers (this one among them) inlined two levels deep
-                orig0 = mir.provenance(f, du, rv["op"], transparent_extra=("std::option::Option::<T>::unwrap",))
+                orig0 = mir.provenance(f, du, rv["op"], transparent_extra=_INDEX_PASS)
                 if orig0 and all(o.kind == "arg" for o in orig0):
                     from ..common import callers_index
                     callers = [(g, ct) for g, ct in callers_index(F).get(p, []) if g["crate"].startswith("tx3") and not is_derive(g)]
@@ -145,7 +145,7 @@ def casts(F, res, reach):
                             r2 = s2["rv"]
                             if hi["blocks"][bj].get("inl") == p and r2["k"] == "cast" and r2.get("ck") == "IntToInt" and r2.get("from") == rv["from"] and r2.get("to") == rv["to"]:
                                 found_here = True
-                                o2 = mir.provenance(hi, dh, r2["op"], transparent_extra=("std::option::Option::<T>::unwrap",))
+                                o2 = mir.provenance(hi, dh, r2["op"], transparent_extra=_INDEX_PASS)
                                 if not (o2 and all(o.kind == "call" and (o.callee.endswith("::position") or o.callee.endswith("Iterator::position") or "enumerate" in o.callee
                                                                          or o.callee.endswith("::len")) for o in o2)):
                                     good_all = False
@@ -168,6 +168,9 @@ def casts(F, res, reach):
 
 
 _KEEP_C = []
+# a found position on its way to the cast: unwrapped, or turned into an error when absent
+_INDEX_PASS = ("std::option::Option::<T>::unwrap", "std::option::Option::<T>::expect", "std::option::Option::<T>::ok_or", "std::option::Option::<T>::ok_or_else",
+               "std::ops::Try::branch", "std::result::Result::<T, E>::unwrap", "std::result::Result::<T, E>::expect")
 
 
 def _closure_arg_is_index(F, f, du, op):
@@ -190,7 +193,7 @@ def _closure_arg_is_index(F, f, du, op):
         for bi, t in mir.calls(owner):
             if not any((mir.op_place(a) or {}).get("l") in clocals for a in t["args"][1:]):
                 continue
-            recv = mir.provenance(owner, duo, t["args"][0], transparent_extra=("std::option::Option::<T>::unwrap",))
+            recv = mir.provenance(owner, duo, t["args"][0], transparent_extra=_INDEX_PASS)
             if recv and all(o.kind == "call" and (o.callee.endswith("::position") or o.callee.endswith("::len") or "enumerate" in o.callee
                                                   or o.callee.endswith("::rposition") or o.callee.endswith("::count")) for o in recv):
                 good = True
